@@ -8,7 +8,7 @@ from ..sexp import S, unS, dump
 PIECES = [';', '#', '@', '[', ']', '$', '{', '}', ' ', '\t', 'a', '/', ':', '${VERIF_V}', '${VERIF_UNSET}', '${PROJECT_ROOT}', '${verif_v}', '$VERIF_V', '${VERIF_V', '${}', '%20', 'é', '　', '\n', '?q=1', '.']
 BASES = ['https://h/p', 'file:///a/b', 'git+https://h/r@v1', 'https://h', '${VERIF_V}', 'https://${VERIF_V}/p', 'hg+static-http://h/repo@v1', 'x-y.z+w://h/p']
 CONTEXTS = ['', ' ', " ; os_name == 'a'", ";os_name == 'a'", "; os_name == 'a'", " ;os_name == 'a'", ' #c', '# c', ' # c', '#c', '\n', "\n; os_name == 'a'", ' x', '　;os_name=="a"']
-ENVS = [None, 'x', 'a b', ' ;', '', 'é', 'https://q/', '${VERIF_V}', '#']
+ENVS = [None, 'x', 'a b', ' ;', '', 'é', 'https://q/', '${VERIF_V}', '#', '${VERIF_W}', 'a${VERIF_W}b/${VERIF_UNSET}']      # VERIF_W is always set to 'inner': expansion happens once
 
 
 def py_isspace(c, wsmap):
@@ -80,13 +80,14 @@ def run(ctx):
                 if k == 2 and ctx.rng.random() > (0.04 if quick else 0.5):
                     continue
                 urls.append(b + ''.join(t))
+    sess.ask(['setenv', S('VERIF_W'), S('inner')])
     for envval in ENVS:
         if envval is None:
             sess.ask(['unsetenv', S('VERIF_V')])
-            env = {}
+            env = {'VERIF_W': 'inner'}
         else:
             sess.ask(['setenv', S('VERIF_V'), S(envval)])
-            env = {'VERIF_V': envval}
+            env = {'VERIF_V': envval, 'VERIF_W': 'inner'}
         rm.env_changed()
         sample = urls if envval in (None, 'a b') else ctx.rng.sample(urls, max(40, len(urls) // 6))
         for u in sample:
@@ -190,6 +191,24 @@ def run(ctx):
     ctx.extra['oracle_table_fills'] = rm.misses
     rm.close()
     sess.close()
+    # with the extension feature a URL text without a scheme is a path: the same expansion applies, with and without a working directory
+    hx = build.harness(ext=True)
+    for wd in (None, '/work'):
+        sx = markers.Session(hx)
+        sx.ask(['setenv', S('VERIF_V'), S('wheels')])
+        sx.ask(['setenv', S('VERIF_R'), S('/srv/project')])
+        rx = reqmodel.ReqModel(sx.p, markers.Keys(sx.p), wd=wd)
+        for u in ['/opt/${VERIF_V}/p-1.0.whl', '${VERIF_R}/dist/p-1.0.whl', './${VERIF_V}/p.whl', 'file:///opt/${VERIF_V}/p.whl', 'file://localhost/opt/${VERIF_V}/p.whl',
+                  '/opt/${VERIF_UNSET}/p.whl', 'https://h/${VERIF_V}/p.whl', '${VERIF_V}', '/opt/${VERIF_V}/${VERIF_V}#frag']:
+            for cx in ('', " ; os_name == 'a'"):
+                text = 'name @ ' + u + cx
+                ctx.evaluations += 1
+                ctx.oracle_cases += 1
+                r, io, mm = reqmodel.compare_req(ctx, sx, rx, text, True, wd)
+                if io[0] == 'ok' and (r[3][0] != 'url' or unS(r[3][2]) != u):
+                    ctx.failure('given() of %r is %s, not the unexpanded source text' % (text, dump(r[3][2])[:80]), {'entry': 'Requirement::parse', 'input': text, 'working_dir': wd})
+        rx.close()
+        sx.close()
     if not ctx.samples:
         ctx.sample('(none)')
     return fw.finish(ctx, 'make -C /verif/coq Props/C18.vo  (coqc, Print Assumptions under each theorem)')
